@@ -28,6 +28,7 @@ FUNCS = [
     ("artifactRemove", "framework/artifact/artifact.py", "Artifact", "remove"),
     ("artifactReplace", "framework/artifact/artifact.py", "Artifact", "replace"),
     ("indexMapGetItem", "framework/randomness/index_map.py", "IndexMap", "__getitem__"),
+    ("indexMapUpdate", "framework/randomness/index_map.py", "IndexMap", "update"),
     ("streamKey", "framework/randomness/stream.py", "RandomnessStream", "_key"),
     ("streamGetDraw", "framework/randomness/stream.py", "RandomnessStream", "get_draw"),
     ("streamFilterForProbability", "framework/randomness/stream.py", "RandomnessStream", "filter_for_probability"),
@@ -187,9 +188,14 @@ def block(body) -> str:
 
 def stmt(s) -> str:
     if isinstance(s, ast.Assign):
-        if len(s.targets) != 1 or isinstance(s.targets[0], (ast.Tuple, ast.List)):
+        if len(s.targets) != 1:
             return "(.other %s)" % _q(ast.unparse(s))
-        return "(.assign %s %s)" % (expr(s.targets[0]), expr(s.value))
+        t = s.targets[0]
+        if isinstance(t, (ast.Tuple, ast.List)):
+            if all(isinstance(e, ast.Name) for e in t.elts):     # `a, b = value`: the value is unpacked positionally
+                return "(.assign (.tupleE %s) %s)" % (_lst([expr(e) for e in t.elts]), expr(s.value))
+            return "(.other %s)" % _q(ast.unparse(s))
+        return "(.assign %s %s)" % (expr(t), expr(s.value))
     if isinstance(s, ast.AnnAssign) and s.value is not None:
         return "(.assign %s %s)" % (expr(s.target), expr(s.value))
     if isinstance(s, ast.AugAssign):
